@@ -62,6 +62,9 @@ func sqrtBranch(b []byte) string {
 	return "non-square"
 }
 
+// dirtyPoint is reused across decode calls on purpose.
+var dirtyPoint ge25519.Ge25519
+
 func feBytes(f *curve25519.Bignum25519) []byte {
 	var out [32]byte
 	curve25519.Contract(out[:], f)
@@ -103,6 +106,19 @@ func judgeDecode(rec *ev.Rec, b []byte, class string) bool {
 			bad = "UnpackNegativeVartime did not return the negated point"
 			return
 		}
+		// decoding into a variable that already holds another point (as the
+		// batch verifier does from its second chunk on) gives the same point
+		if !ge25519.UnpackVartime(&dirtyPoint, b) || !bytes.Equal(feBytes(dirtyPoint.X()), wx) || !bytes.Equal(feBytes(dirtyPoint.Y()), wy) || !bytes.Equal(feBytes(dirtyPoint.Z()), ref.LEBytes(gen.One, 32)) {
+			bad = "decoding into a previously used point variable gives a different result than decoding into a fresh one"
+			return
+		}
+		var chk [32]byte
+		ge25519.Pack(chk[:], &dirtyPoint)
+		if !bytes.Equal(chk[:], ref.Encode(pt)) {
+			bad = "point decoded into a previously used variable does not re-encode canonically"
+			return
+		}
+		ge25519.Double(&dirtyPoint, &dirtyPoint) // leave a non-trivial projective value behind
 		var e1, e2, e3, e4 [32]byte
 		ge25519.Pack(e1[:], &p)
 		ge25519.Pack(e2[:], &n)
